@@ -140,25 +140,47 @@ impl PieceType for Pawn {
             let dest = BitBoard::from(Pos::new(ep_file, dest_rank)) & mask;
             let capture_pawn = Pos::new(ep_file, rank);
 
-            // if the opponent's pawn is checking the king (and the only piece checking the king)
-            // or if the there is no check and the opponent's pawn doesn't block a check against our king
-            // then we can capture it via en-passant with any unpinned pawn on the same rank and adjacent file as the
-            // opponent's pawn
-            if dest.any()
-                && check_mask.contains(capture_pawn)
-                && !board.pinned.contains(capture_pawn)
-            {
-                for src in BitBoard::from(rank) & files & pieces & !board.pinned {
-                    unsafe {
-                        movelist.push_unchecked(LegalMovesAt {
-                            src,
-                            moves: dest,
-                            promotion: false,
-                        });
+            if dest.any() {
+                // an en-passant capture changes three squares at once, so pins and checks are
+                // decided by playing the capture on the occupancy and looking at the king directly
+                for src in BitBoard::from(rank) & files & pieces {
+                    if board.is_legal_en_passant(king_sq, src, capture_pawn, dest) {
+                        unsafe {
+                            movelist.push_unchecked(LegalMovesAt {
+                                src,
+                                moves: dest,
+                                promotion: false,
+                            });
+                        }
                     }
                 }
             }
         }
+    }
+}
+
+impl Board {
+    fn is_legal_en_passant(
+        &self,
+        king_sq: Pos,
+        src: Pos,
+        capture_pawn: Pos,
+        dest: BitBoard,
+    ) -> bool {
+        let capture_bb = BitBoard::from(capture_pawn);
+        let combined = (self.raw.all() - BitBoard::from(src) - capture_bb) | dest;
+        let opp_bb = self.raw[!self.turn];
+        let queens = self.raw[Piece::Queen];
+
+        let rooks = (self.raw[Piece::Rook] | queens) & opp_bb;
+        let bishops = (self.raw[Piece::Bishop] | queens) & opp_bb;
+        let knights = self.raw[Piece::Knight] & opp_bb;
+        let pawns = (self.raw[Piece::Pawn] & opp_bb) - capture_bb;
+
+        (chess_lookup::rook_moves(king_sq, combined) & rooks).none()
+            && (chess_lookup::bishop_moves(king_sq, combined) & bishops).none()
+            && (chess_lookup::knight_moves(king_sq) & knights).none()
+            && (chess_lookup::pawn_attacks_moves(king_sq, self.turn) & pawns).none()
     }
 }
 
